@@ -15,7 +15,9 @@ import (
 	"verif/sim"
 )
 
-var universe = []string{"eth0", "eth1", "wlan0", "tun5"}
+// universe: the links of the simulated host (six, so that one update can reconfigure three
+// interfaces, remove one and add one)
+var universe = []string{"eth0", "eth1", "eth2", "wlan0", "tun5", "br0"}
 
 func capCfg(t *sim.Tape) config.CaptureConfig {
 	c := config.DefaultCaptureConfig()
@@ -55,7 +57,7 @@ func genConfig(t *sim.Tape) (*config.Config, string) {
 		}
 		return cfg, fmt.Sprintf("autodetect exclude=%v", cfg.AutoDetection.Exclude)
 	case 1: // regular expressions
-		pats := []string{"/^eth[0-9]$/", "/0$/", "/^(eth|wlan)/", "/^tun/", "/.*/"}
+		pats := []string{"/^eth[0-9]$/", "/0$/", "/^(eth|wlan)/", "/^tun/", "/.*/", "/^(br|tun)/"}
 		n := 1 + t.Draw(2)
 		for i := 0; i < n; i++ {
 			cfg.Interfaces[pats[t.Draw(len(pats))]] = capCfg(t)
